@@ -8,6 +8,8 @@ import traceback
 
 sys.path.insert(0, os.path.dirname(os.path.abspath(__file__)))
 import common  # noqa: E402
+import warnings
+warnings.filterwarnings("ignore")
 
 
 def main():
